@@ -1,6 +1,32 @@
-(* C20 — property theorems only. *)
-From MV Require Import C20.Model C20.GenEq gen.Params_C20.
+(* C20 — pure utilities: property theorems only.  Each is closed by [exact] of a lemma
+   proved under coq/C20/ and followed by Print Assumptions.
 
+   The model (C20/Model.v) transcribes the REPAIRED code (fixes/C20-*.patch).
+   What is proved here and what is not:
+   - next_pow_of_2: full statement on [1, 2^63], behaviour outside stated; tied to the
+     C text by the leaf translator (gen_npo2_eq).
+   - integer parsers: full iff statements, RELATIVE to the Gallina model of the strtol
+     family (Model.strto_core / strtos / strtou), which is assumed libc behaviour and is
+     compared with the real libc on every run of the check.
+   - float parsers: only the wrapper logic over an abstract libc result (tofloat_exact);
+     values never enter Coq.
+   - path functions: path_no_overflow and path_terminated in full (all inputs, all sizes,
+     reads of the output buffer included).  path_algebra is proved only in part
+     (path_algebra_partial: isabs, basename and dirname against "split at the last
+     separator" for EVERY NUL-free input and every size, success exactly when the result
+     fits; join likewise: p1, exactly one separator, p2 without its leading '/'; normpath
+     on inputs without two adjacent dots is the identity up to the "./" prefix; abspath of
+     an absolute path is the path).  The ".." resolution of normpath (and abspath of a
+     relative path, which is join + normpath) against the component algebra on the plain
+     class is checked by the differential run + the independent monitor only.
+   - strip/startswith/endswith/find/count: full statements against list specifications
+     (count: the greedy left-to-right count of non-overlapping occurrences, which is unique).
+   - hex round trip and rejection, endian swap involutions: full. *)
+From MV Require Import C20.Model C20.GenEq gen.Params_C20
+  C20.ProofsNpo2 C20.ProofsStr C20.ProofsCount C20.ProofsParse C20.ProofsPath C20.ProofsHex
+  C20.ProofsAlg C20.ProofsAlg2 C20.ProofsAlg3 C20.ProofsAlg4.
+
+(* ---------------- leaf translator obligations (DESIGN.md 4.4) ---------------- *)
 Theorem gen_npo2_eq : forall x : N, gen_npo2 x = model_npo2 x.
 Proof. exact gen_npo2_eq_l. Qed.
 Print Assumptions gen_npo2_eq.
@@ -8,3 +34,191 @@ Print Assumptions gen_npo2_eq.
 Theorem gen_hex_to_byte_eq : forall c : Z, gen_hex_to_byte c = hex_to_byte c.
 Proof. exact gen_hex_to_byte_eq_l. Qed.
 Print Assumptions gen_hex_to_byte_eq.
+
+(* ---------------- next_pow_of_2 ---------------- *)
+(* On 1 <= x <= 2^63 the result is a power of two, not below x, and the least such. *)
+Theorem npo2_least_pow2 : forall x : N, (1 <= x)%N -> (x <= 2 ^ 63)%N ->
+  is_pow2 (model_npo2 x) /\ (x <= model_npo2 x)%N /\
+  (forall p, is_pow2 p -> (x <= p)%N -> (model_npo2 x <= p)%N).
+Proof. exact npo2_least_pow2_l. Qed.
+Print Assumptions npo2_least_pow2.
+
+(* Outside that domain (no 64-bit answer exists above 2^63) the function returns 0. *)
+Theorem npo2_outside_domain :
+  model_npo2 0 = 0%N /\ forall x : N, (2 ^ 63 < x)%N -> (x < 2 ^ 64)%N -> model_npo2 x = 0%N.
+Proof. exact (conj npo2_zero_l npo2_above_l). Qed.
+Print Assumptions npo2_outside_domain.
+
+(* ---------------- integer parsers ---------------- *)
+(* success with value v  <->  the string is blanks, optional sign, one numeral of the
+   base (0x / 0 prefixes as in C), blanks, and v is in the type's range *)
+Theorem toi_exact : forall base s v, valid_base base ->
+  (toi base s = Some v <-> well_formed base s v /\ (INT_MIN <= v <= INT_MAX)%Z).
+Proof. exact toi_exact_l. Qed.
+Print Assumptions toi_exact.
+
+Theorem tou_exact : forall base s v, valid_base base ->
+  (tou base s = Some v <-> well_formed base s v /\ (0 <= v <= UINT_MAX)%Z).
+Proof. exact tou_exact_l. Qed.
+Print Assumptions tou_exact.
+
+Theorem tol_exact : forall base s v, valid_base base ->
+  (tol base s = Some v <-> well_formed base s v /\ (LONG_MIN <= v <= LONG_MAX)%Z).
+Proof. exact tol_exact_l. Qed.
+Print Assumptions tol_exact.
+
+Theorem toul_exact : forall base s v, valid_base base ->
+  (toul base s = Some v <-> well_formed base s v /\ (0 <= v <= ULONG_MAX)%Z).
+Proof. exact toul_exact_l. Qed.
+Print Assumptions toul_exact.
+
+Theorem toll_exact : forall base s v, valid_base base ->
+  (toll base s = Some v <-> well_formed base s v /\ (LONG_MIN <= v <= LONG_MAX)%Z).
+Proof. exact tol_exact_l. Qed.
+Print Assumptions toll_exact.
+
+Theorem toull_exact : forall base s v, valid_base base ->
+  (toull base s = Some v <-> well_formed base s v /\ (0 <= v <= ULONG_MAX)%Z).
+Proof. exact toul_exact_l. Qed.
+Print Assumptions toull_exact.
+
+(* float parsers: wrapper logic only, over the abstract libc result *)
+Theorem tofloat_exact : forall s consumed is_inf er,
+  tofloat s consumed is_inf er = true <->
+  consumed <> 0%nat /\ Forall blank (skipn consumed s) /\ ~ (is_inf = true /\ er = true).
+Proof. exact tofloat_exact_l. Qed.
+Print Assumptions tofloat_exact.
+
+(* ---------------- path functions ---------------- *)
+(* for basename, dirname, normpath, join, abspath (cwd a parameter), every input and
+   every size: no cell outside the size-cell buffer is written or read *)
+Theorem path_no_overflow : forall c size init,
+  call_wf c -> zlen init = size ->
+  oob (snd (run_call c size (mkbuf init false))) = false /\
+  zlen (cells (snd (run_call c size (mkbuf init false)))) = size.
+Proof. exact path_no_overflow_l. Qed.
+Print Assumptions path_no_overflow.
+
+(* ... and whatever is reported as success has a NUL inside the buffer *)
+Theorem path_terminated : forall c size init,
+  call_wf c -> zlen init = size ->
+  fst (run_call c size (mkbuf init false)) = 0%Z ->
+  has_nul (cells (snd (run_call c size (mkbuf init false)))) = true.
+Proof. exact path_terminated_l. Qed.
+Print Assumptions path_terminated.
+
+(* FULL STATEMENT (path_algebra, not proved in Coq in full): on plain paths (optional "/" or "./"
+   prefix, components that are names or "..", single "/" separators, optional trailing "/")
+   join / dirname / basename / normpath / abspath return exactly the result of the component
+   algebra (resolve ".." against the preceding name, keep a leading "../" chain, "./" for the
+   empty result, error above the root), and fail only when the buffer is too small.
+   Proved part (stronger than the plain class where it applies: every NUL-free input):
+   isabs, basename, dirname, join; normpath without ".."; abspath of absolute paths.
+   ".." resolution in normpath / relative abspath: differential run + monitor only. *)
+Theorem path_algebra_partial :
+  (* isabs *)
+  (forall p, isabs p = true <->
+     ((1 < zlen p)%Z /\ nth 0 p 0%Z = 47%Z) \/
+     ((2 < zlen p)%Z /\ is_alpha (nth 0 p 0%Z) = true /\ nth 1 p 0%Z = 58%Z /\ is_sep (nth 2 p 0%Z) = true)) /\
+  (* base_of p is p when p has no separator, else the part behind the last separator *)
+  (forall p, (nosep p /\ base_of p = p) \/
+             (exists a c b, p = a ++ c :: b /\ is_sep c = true /\ nosep b /\ base_of p = b)) /\
+  (* basename succeeds exactly when that part is non-empty and fits, and then returns it *)
+  (forall p size m, ok m size -> nonzero p ->
+     (fst (basename p size m) = 0%Z <-> base_of p <> [] /\ (zlen (base_of p) < size)%Z /\ (1 < size)%Z) /\
+     (fst (basename p size m) = 0%Z -> cstr (cells (snd (basename p size m))) = base_of p)) /\
+  (* dirname of a ++ sep :: b (no separator in b) is a, the separator kept for the root and "c:/" *)
+  (forall a c b size m, ok m size -> nonzero (a ++ c :: b) -> is_sep c = true -> nosep b ->
+     let p := a ++ c :: b in
+     (fst (dirname p size m) = 0%Z <-> (zlen (dir_ref a c) < size)%Z /\ (1 < size)%Z) /\
+     (fst (dirname p size m) = 0%Z -> cstr (cells (snd (dirname p size m))) = dir_ref a c)) /\
+  (* join = p1, one separator unless p1 already ends with one, p2 without its leading '/' *)
+  (forall p1 p2 size m, ok m size -> nonzero p1 -> nonzero p2 ->
+     (fst (join p1 p2 size m) = 0%Z <->
+        p1 <> [] /\ p2 <> [] /\ p2 <> [47%Z] /\ (zlen (join_ref p1 p2) < size)%Z /\ (1 < size)%Z) /\
+     (fst (join p1 p2 size m) = 0%Z -> cstr (cells (snd (join p1 p2 size m))) = join_ref p1 p2)) /\
+  (* normpath without two adjacent dots: the path itself minus a leading "./" (".\\"), "./" when empty *)
+  (forall p size m, ok m size -> nonzero p -> no_dd p ->
+     let q := np_cursor p in
+     (fst (normpath p size m) = 0%Z <-> (zlen p < size)%Z /\ (q = [] -> (2 < size)%Z)) /\
+     (fst (normpath p size m) = 0%Z ->
+        cstr (cells (snd (normpath p size m))) = if (length q =? 0)%nat then [46%Z; 47%Z] else q)) /\
+  (* abspath of an absolute path *)
+  (forall cwd p size junk m, ok m size -> nonzero p -> isabs p = true ->
+     (fst (abspath cwd p size junk m) = 0%Z <-> (zlen p < size)%Z /\ (1 < size)%Z) /\
+     (fst (abspath cwd p size junk m) = 0%Z -> cstr (cells (snd (abspath cwd p size junk m))) = p)).
+Proof.
+  exact (conj isabs_spec_l (conj base_of_ref (conj basename_algebra_l (conj dirname_algebra_l
+         (conj join_algebra_l (conj normpath_nodd_l abspath_abs_l)))))).
+Qed.
+Print Assumptions path_algebra_partial.
+
+(* ---------------- strip / startswith / endswith / find / count ---------------- *)
+Theorem lstrip_idx_spec : forall s,
+  (lstrip_idx s = (-1)%Z <-> s <> [] /\ Forall blank s) /\
+  (lstrip_idx s <> (-1)%Z -> lstrip_idx s = zlen (lead_blanks s)
+                            /\ is_space (nth (Z.to_nat (lstrip_idx s)) s 0%Z) = false).
+Proof. exact lstrip_idx_spec_l. Qed.
+Print Assumptions lstrip_idx_spec.
+
+Theorem rstrip_idx_spec : forall s,
+  let r := rstrip_idx s in
+  (-1 <= r < zlen s)%Z /\
+  (forall j, (r < Z.of_nat j)%Z -> (j < length s)%nat -> blank (nth j s 0%Z)) /\
+  ((0 <= r)%Z -> is_space (nth (Z.to_nat r) s 0%Z) = false).
+Proof. exact rstrip_idx_spec_l. Qed.
+Print Assumptions rstrip_idx_spec.
+
+Theorem startswith_spec : forall s p,
+  startswith s p = true <-> (exists r, s = p ++ r) /\ (p = [] -> s = []).
+Proof. exact startswith_spec_l. Qed.
+Print Assumptions startswith_spec.
+
+Theorem endswith_spec : forall s p,
+  endswith s p = true <-> (exists r, s = r ++ p) /\ (p = [] -> s = []).
+Proof. exact endswith_spec_l. Qed.
+Print Assumptions endswith_spec.
+
+Theorem str_find_spec : forall s sub start end_,
+  let len := zlen s in
+  let r := str_find s sub start end_ in
+  if ((start <? 0) || (end_ <? 0) || (start >=? len) || (norm_end len end_ <=? start))%Z
+  then r = (-1)%Z
+  else find_ref s sub start (norm_end len end_) r.
+Proof. exact str_find_spec_l. Qed.
+Print Assumptions str_find_spec.
+
+(* str_count is 0 for a degenerate window or an empty pattern; otherwise it is the greedy
+   left-to-right number of non-overlapping occurrences inside the normalised window *)
+Theorem str_count_spec : forall s sub start end_,
+  let len := zlen s in
+  let r := str_count s sub start end_ in
+  if ((start <? 0) || (end_ <? 0) || (start >=? len) || (norm_end len end_ <=? start) || (zlen sub =? 0))%Z
+  then r = 0%Z
+  else greedy s sub (norm_end len end_) start r.
+Proof. exact str_count_spec_l. Qed.
+Print Assumptions str_count_spec.
+
+(* the greedy count is a function of its arguments, so str_count_spec determines the value *)
+Theorem greedy_count_unique : forall s sub e, (0 < zlen sub)%Z -> forall pos n1, greedy s sub e pos n1 ->
+  forall n2, greedy s sub e pos n2 -> n1 = n2.
+Proof. exact greedy_unique. Qed.
+Print Assumptions greedy_count_unique.
+
+(* ---------------- hex, endian ---------------- *)
+Theorem hex_roundtrip : forall b, Forall (fun x => (0 <= x < 256)%Z) b ->
+  hex_to_bytes (hex_from_bytes b) (length b) = Some b.
+Proof. exact hex_roundtrip_l. Qed.
+Print Assumptions hex_roundtrip.
+
+Theorem hex_rejects_non_hex : forall n hex, (2 * n <= length hex)%nat ->
+  ((exists out, hex_to_bytes hex n = Some out /\ length out = n) <-> Forall is_hex (firstn (2 * n) hex)).
+Proof. exact hex_to_bytes_accepts_l. Qed.
+Print Assumptions hex_rejects_non_hex.
+
+Theorem endian_swap_involutive :
+  (forall v, (v < 2 ^ 16)%N -> swap16 (swap16 v) = v) /\
+  (forall v, (v < 2 ^ 32)%N -> swap32 (swap32 v) = v) /\
+  (forall v, (v < 2 ^ 64)%N -> swap64 (swap64 v) = v).
+Proof. exact (conj swap16_involutive_l (conj swap32_involutive_l swap64_involutive_l)). Qed.
+Print Assumptions endian_swap_involutive.
